@@ -390,8 +390,10 @@ class Evaluator:
             elif isinstance(node.op, ast.Not):
                 if isinstance(v, z3.BoolRef):
                     out.append((z3.Not(v), c))
-                elif _sym(v) or isinstance(v, (DecStr, IntStr)):
-                    raise Unsupported("truthiness of symbolic value")
+                elif _sym(v):
+                    out.append((to_rat(v).P == 0, c))
+                elif isinstance(v, (DecStr, IntStr)):
+                    out.append((False, c))
                 else:
                     out.append((not v, c))
             elif isinstance(node.op, ast.UAdd):
@@ -549,7 +551,17 @@ class Evaluator:
                         go(i + 1, c + [z3.Not(v)])
                 else:
                     if _sym(v):
-                        raise Unsupported("truthiness of symbolic number")
+                        if last:
+                            results.append((v, c))
+                            continue
+                        nz = to_rat(v).P != 0
+                        if is_and:
+                            results.append((v, c + [z3.Not(nz)]))   # falsy operand is the value of the `and`
+                            go(i + 1, c + [nz])
+                        else:
+                            results.append((v, c + [nz]))
+                            go(i + 1, c + [z3.Not(nz)])
+                        continue
                     if last or (is_and and not v) or (not is_and and v):
                         results.append((v, c))
                     else:
